@@ -340,7 +340,20 @@ class Generator:
                 if depth == 1 and ch == '}':
                     last = i
         if last is None:
-            raise ExtractError('region: no inner block')
+            # no nested block: the arm is a flat statement list; drop its final expression (the moved-out error value)
+            inner = blk[1:-1]
+            mi = mask(inner)
+            depth, cut = 0, None
+            for i, ch in enumerate(mi):
+                if ch in '({[':
+                    depth += 1
+                elif ch in ')}]':
+                    depth -= 1
+                elif ch == ';' and depth == 0:
+                    cut = i
+            if cut is None:
+                raise ExtractError('region: no statement before the final expression')
+            return '{' + inner[:cut + 1] + '\n}'
         return blk[:last + 1] + '\n}'
 
     def splice_closures(self, b, spec):
@@ -525,6 +538,7 @@ class Generator:
         for s in specs:
             skip |= s.get('skip', set())
         cur_fn = None
+        skip_until_body = False
         for idx, ln in enumerate(lines):
             if idx in skip:
                 continue
@@ -539,6 +553,22 @@ class Generator:
                 cur_fn = {'name': name, 'gen_start': len(out) + 1}
                 if 'trusted=1' in ln:
                     cur_fn = None
+                if ' optional=1' in ln:
+                    # a helper that may legitimately disappear from the source: if it is gone, its contract is dropped and callers decide
+                    sp = next(s_ for s_ in specs if s_['name'] == name)
+                    try:
+                        self.extract_body(sp)
+                    except ExtractError as e:
+                        if 'found 0' not in str(e):
+                            raise
+                        self.notes.append('optional function %s not present in the source: contract dropped' % name)
+                        self.rule_log['optional-function-absent'] = self.rule_log.get('optional-function-absent', 0) + 1
+                        skip_until_body = True
+                        cur_fn = None
+                continue
+            if skip_until_body:
+                if ln.startswith('//@body'):
+                    skip_until_body = False
                 continue
             if ln.startswith('//@closure') or ln.startswith('//@loop') or ln.startswith('//@endloop'):
                 continue
